@@ -164,7 +164,7 @@ def run_chain(rng, counters, violations):
         src = live[src_i]
         kind = rng.choice(["rows", "rows2", "cols", "cols_str", "select", "add", "mul", "concat", "copy", "t", "head",
                            "tail", "reverse", "setcol", "newcol", "setcell", "new", "colexpr", "delcol", "pop", "neg",
-                           "at", "iter", "badset"])
+                           "at", "iter", "badset", "ragged"])
         real_cols = [c for c in src._col_names]
         desc = kind
         snap = snapshot(src)
@@ -266,6 +266,28 @@ def run_chain(rng, counters, violations):
             elif kind == "new":
                 out = new_table(rng)
                 desc = "new table"
+            elif kind == "ragged":
+                # the checked constructor is handed columns of DIFFERENT lengths (one column, any position, any dtype):
+                # it must refuse; whatever it returns instead has to satisfy the invariant
+                n = rng.choice([0, 1, 2, 3, 5])
+                data = {"name": np.array([rng.choice(NAMES) for _ in range(n)], dtype=object),
+                        "x": np.arange(n, dtype=float), "i": np.arange(n, dtype=int),
+                        "s": np.array([rng.choice(["u", "v"]) for _ in range(n)] or [], dtype="U1"),
+                        "b": np.array([b"q"] * n, dtype="S1")}
+                cols = list(data)
+                rng.shuffle(cols)
+                victim = rng.choice(cols)
+                k = n + rng.choice([1, 2]) if (n == 0 or rng.random() < 0.5) else n - 1
+                data[victim] = np.resize(data[victim], k) if k else data[victim][:0]
+                if data[victim].dtype == object and k > n:
+                    data[victim][n:] = "a"
+                desc = "Table(ragged: column %r has %d entries, the others %d; order %s)" % (victim, k, n, cols)
+                try:
+                    out = Table(data, col_names=cols, index="name")
+                    counters["ragged_inputs_accepted"] = counters.get("ragged_inputs_accepted", 0) + 1
+                except Exception:
+                    out = None
+                    counters["ragged_inputs_refused"] = counters.get("ragged_inputs_refused", 0) + 1
             elif kind == "badset":
                 # an assignment that FAILS part-way (numpy writes the leading cells before it meets the value it
                 # cannot convert); afterwards the table must still satisfy every clause on its CURRENT columns
@@ -327,7 +349,7 @@ def run_chain(rng, counters, violations):
             out = None
             desc += " -> raised %s" % type(exc).__name__
         log.append(desc)
-        is_derivation = kind not in ("setcol", "newcol", "setcell", "delcol", "new", "pop", "append", "badset")
+        is_derivation = kind not in ("setcol", "newcol", "setcell", "delcol", "new", "pop", "append", "badset", "ragged")
         if is_derivation:
             counters["derivations_with_source_snapshot"] = counters.get("derivations_with_source_snapshot", 0) + 1
             why = same_snapshot(snap, snapshot(src))
